@@ -636,13 +636,17 @@ fn kitty_image_id(img: &Image) -> u64 {
 /// but in particular implementation it is bound to a physical position on
 /// the screen.
 fn kitty_placement_id(pos: Position) -> u64 {
-    (pos.row as u64 % KITTY_MAX_DIM) + (pos.col as u64 % KITTY_MAX_DIM) * KITTY_MAX_DIM
+    // NOTE: zero is not a valid placement id, it means "not specified": put
+    //       creates additional placement and delete removes all placements
+    let index = (pos.row as u64 % KITTY_MAX_DIM) + (pos.col as u64 % KITTY_MAX_DIM) * KITTY_MAX_DIM;
+    (index + 1).min(KITTY_MAX_ID)
 }
 
 fn kitty_placement_to_pos(placement_id: u64) -> Position {
+    let index = placement_id.saturating_sub(1);
     Position {
-        col: (placement_id / KITTY_MAX_DIM) as usize,
-        row: (placement_id % KITTY_MAX_DIM) as usize,
+        col: (index / KITTY_MAX_DIM) as usize,
+        row: (index % KITTY_MAX_DIM) as usize,
     }
 }
 
